@@ -203,6 +203,12 @@ def r4(ctx, prog, evalr, rep):
                            "dead arm: only reachable when a comparable evaluates to a node list (Data::Refs), which "
                            "C04-R5 (re-checked in this run) shows cannot be constructed")
                     continue
+                from rules import c04
+                if kind == "T" and T.loc(x) in c04.partial_eq_discharged(prog, Evaluator(prog)):
+                    rep.ok("C15-R4", "%s|PartialEq<%s>" % (shared.rk(prog, Evaluator(prog), prog.owner_fn(p)), kind), T.loc(x),
+                           "residual comparison: numbers, arrays and objects are compared through the Queryable view before it "
+                           "(C04-R6, re-evaluated in this run); what is left are strings, booleans, null and mixed kinds")
+                    continue
                 rep.bad("C15-R4", "%s|PartialEq<%s>" % (shared.rk(prog, Evaluator(prog), prog.owner_fn(p)), kind), T.loc(x),
                         "`==` on `%s` delegates to the data type's own PartialEq: the result does not depend only on the "
                         "Queryable view" % g[0])
